@@ -79,14 +79,18 @@ pub fn run(stim: &Value, rec: &Rec) {
         let svc = SvcServer::new(H { log: log.clone() });
         // ---- server
         if stim["alpn"].as_str().unwrap_or("h2") == "h2" {
-            let mut cfg = ServerTlsConfig::new().identity(Identity::from_pem(pem("server.pem"), pem("server.key")));
+            // stim.order = "rev": the builder methods are called in the opposite order (identity last on the server; identity, name, roots,
+            // assume_http2 on the client) - the order of builder calls must not matter
+            let rev = stim["order"].as_str() == Some("rev");
+            let mut cfg = if rev { ServerTlsConfig::new() } else { ServerTlsConfig::new().identity(Identity::from_pem(pem("server.pem"), pem("server.key"))) };
             // client_ca: "proper" (default), "empty" (no PEM section at all) or "key_only" (a private key where the CA should be)
             let ca: Vec<u8> = match stim["client_ca"].as_str().unwrap_or("proper") { "empty" => b"# no certificate here\n".to_vec(), "key_only" => pem("client_c.key"),
                 _ => match stim["client_ca_form"].as_str().unwrap_or("single") {
                     "bundle_last" => { let mut v = pem("ca_a.pem"); v.push(b'\n'); v.extend(pem("ca_c.pem")); v }      // CA a issues no client certificate
                     "bundle_first" => { let mut v = pem("ca_c.pem"); v.push(b'\n'); v.extend(pem("ca_a.pem")); v }
                     _ => pem("ca_c.pem") } };
-            match stim["client_auth"].as_str().unwrap_or("none") { "none" => {}, mode => { cfg = cfg.client_ca_root(Certificate::from_pem(ca)).client_auth_optional(mode == "optional"); } }
+            match stim["client_auth"].as_str().unwrap_or("none") { "none" => {}, mode => { cfg = if rev { cfg.client_auth_optional(mode == "optional").client_ca_root(Certificate::from_pem(ca)) } else { cfg.client_ca_root(Certificate::from_pem(ca)).client_auth_optional(mode == "optional") }; } }
+            if rev { cfg = cfg.identity(Identity::from_pem(pem("server.pem"), pem("server.key"))); }
             let incoming = tokio_stream::StreamExt::chain(tokio_stream::once(Ok::<_, std::io::Error>(s_io)), tokio_stream::pending());
             let log3 = log.clone();
             tokio::spawn(async move {
@@ -115,7 +119,11 @@ pub fn run(stim: &Value, rec: &Rec) {
         let origin_uri: Option<http::Uri> = if origin.starts_with("good") { Some("https://good.test".parse().unwrap()) } else if origin.starts_with("bad") { Some("https://wrong.test".parse().unwrap()) } else { None };
         if origin.ends_with("_before") { ep = ep.origin(origin_uri.clone().unwrap()); }
         if stim["tls_cfg"].as_bool().unwrap_or(true) {
-            let mut t = ClientTlsConfig::new().assume_http2(stim["assume_http2"].as_bool().unwrap_or(false));
+            let rev = stim["order"].as_str() == Some("rev");
+            let mut t = if rev { ClientTlsConfig::new() } else { ClientTlsConfig::new().assume_http2(stim["assume_http2"].as_bool().unwrap_or(false)) };
+            for step in (if rev { ["identity", "name", "roots", "assume"] } else { ["roots", "name", "identity", "none"] }) {
+                match step {
+                    "roots" => {
             // roots_form: how the trusted root reaches the configuration - alone, or as one of several certificates in one PEM bundle
             let cat = |a: &str, b: &str| { let mut v = pem(a); v.push(b'\n'); v.extend(pem(b)); v };
             match (stim["roots"].as_str().unwrap_or("right"), stim["roots_form"].as_str().unwrap_or("single")) {
@@ -129,8 +137,17 @@ pub fn run(stim: &Value, rec: &Rec) {
                 ("other", "bundle_last") | ("other", "bundle_first") => { t = t.ca_certificate(Certificate::from_pem(cat("ca_b.pem", "ca_c.pem"))); }
                 ("other", _) => { t = t.ca_certificate(Certificate::from_pem(pem("ca_b.pem"))); }
                 _ => {} }
+                    }
+                    "name" => {
             match stim["name"].as_str().unwrap_or("match") { "match" => { t = t.domain_name("good.test"); } "mismatch" => { t = t.domain_name("wrong.test"); } _ => {} }
+                    }
+                    "identity" => {
             match stim["identity"].as_str().unwrap_or("none") { "valid" => { t = t.identity(Identity::from_pem(pem("client_c.pem"), pem("client_c.key"))); } "other_ca" => { t = t.identity(Identity::from_pem(pem("client_b.pem"), pem("client_b.key"))); } _ => {} }
+                    }
+                    "assume" => { t = t.assume_http2(stim["assume_http2"].as_bool().unwrap_or(false)); }
+                    _ => {}
+                }
+            }
             match ep.tls_config(t) { Ok(e) => ep = e, Err(e) => { log.ev(json!({"e":"client","connect":"config_err","call":"none","code":-1,"msg":e.to_string()})); return; } }
         }
         if origin.ends_with("_after") { ep = ep.origin(origin_uri.clone().unwrap()); }
